@@ -73,6 +73,8 @@ def main():
         except subprocess.TimeoutExpired:
             out, rc = 'TIMEOUT', 2
         lines = [ln[:300] for ln in out.splitlines() if ln.startswith(('VIOLATION', 'BROKEN', 'KNOWN-FINDING', prop + ' tier'))]
+        lines = ([ln for ln in lines if ln.startswith('VIOLATION')][:4] + [ln for ln in lines if ln.startswith(prop + ' tier')]
+                 + [ln for ln in lines if not ln.startswith(('VIOLATION', prop + ' tier'))])
         res['props'][prop] = {'exit': rc, 'wall': round(time.time() - t0, 1), 'lines': lines[:12],
                               'tail': out[-300:] if rc == 2 else ''}
         # keep the first replay for the record
